@@ -18,7 +18,7 @@ class C10(PureCheck):
     pid = "C10"
     warm_every = 3
     rule = ("layouts of <=2 runs (quick; + sampled 3-run layouts with runs up to length 3) / <=3 runs (thorough) of length 0..2 "
-            "over {a (narrow), U+FF25 (double-width), U+0301 (combining)} x {plain, red}, plus sampled layouts over {a, U+0E31, U+200D, U+1160 (zero width, not canonical combining marks), U+FF25, U+1F600}; width, width_at_offset(n) for every "
+            "over {a (narrow), U+FF25 (double-width), U+0301 (combining)} x {plain, red}, plus sampled layouts over {a, U+0E31, U+200D, U+1160 (zero width, not canonical combining marks), U+FF25, U+1F600}; also five long-run families (runs of 60..140 marked / double-width / plain characters, alone and next to a short run); width, width_at_offset(n) for every "
             "0<=n<=len+1, width_aware_slice for every 0<=a<=b<=width+2 (empty ranges and ranges starting/ending inside a "
             "double-width character included). distinct_nontrivial = distinct (layout, range) where the range cuts a "
             "double-width character or the layout has a zero-width character or >=2 runs")
@@ -43,6 +43,19 @@ class C10(PureCheck):
         runsx = [[list(t), list(a)] for t in fmtlib.texts_upto(ALPHA_X, 3, 1) for a in ATTS2]
         for _ in range(250 if tier == "quick" else 4000):
             pool.append([rng.choice(runsx) for _ in range(rng.choice([1, 2, 2, 3]))])
+        # long runs (60..140 characters: marked letters, double-width, plain) next to short ones: ranges around the start,
+        # around the run boundary and at the end, every start column of the first stretch
+        for unit, reps in (([97, 769], 35), ([65317, 97], 40), ([97, 769, 65317], 30), ([97], 70), ([97, 769], 64)):
+            long_run = [unit * reps, list(ATTS2[1])]
+            for f in ([long_run], [[[97], list(ATTS2[0])], long_run], [long_run, [[65317, 97], list(ATTS2[0])]]):
+                w = cols(f)
+                yield {"op": "width", "f": f}
+                for a in list(range(0, 9)) + [w // 2, w // 2 + 1, w - 3, w - 1, w, w + 1]:
+                    for b in (a, a + 1, a + 2, a + 5, w, w + 2):
+                        if 0 <= a <= b <= w + 2:
+                            yield {"op": "wslice", "f": f, "a": a, "b": b}
+                for off in (0, 1, 2, 63, 64, 65, fmtlib.vlen(f)):
+                    yield {"op": "width_at", "f": f, "off": off}
         for f in pool:
             w = cols(f)
             n = fmtlib.vlen(f)
@@ -80,7 +93,7 @@ class C10(PureCheck):
             except Exception as e:  # noqa
                 ev["n"], ev["k"], ev["t"] = 0, "exc", enc.exc_name(e)
         else:
-            ev["res"] = fmtlib.enc_res(lambda: f.width_aware_slice(slice(inp["a"], inp["b"])))
+            ev["res"] = fmtlib.enc_res(lambda: enc.call(f.width_aware_slice, slice(inp["a"], inp["b"])))
         return ev
 
     def _cuts(self, ev):
